@@ -108,6 +108,10 @@ def run(facts, tier):
             t2.violate("doubling", f"CSV writer replaces {got}; the quote must be doubled", where=wf["sp"])
         if quotes.count(b'"') < 2:
             t2.violate("wrap", "CSV writer does not wrap text fields in quotes", where=wf["sp"])
+        cond = [n for n in find(wf["body"], lambda n: n.get("k") == "If" or (n.get("k") == "Match" and n.get("src") == "Normal"))]
+        t2.examined("unconditional", True, {"text_fields_always_quoted": not cond})
+        if cond:
+            t2.violate("conditional-quoting", "CSV writer quotes text fields only under a condition: an unquoted field spelled like a number, a boolean or the empty string reads back as another value", where=cond[0]["sp"])
         for f in rf:
             for call in find(f["body"], lambda n: n.get("k") == "Call" and (strip(n["f"]).get("path") or {}).get("def") == "jaq_fmts::read::tabular::field"):
                 sep, q = lit_bytes(call["args"][1]), lit_bytes(call["args"][2])
@@ -261,6 +265,14 @@ def run(facts, tier):
         # numbers: the writer over-approximates `looks like a number` by a leading digit after an optional '-'
         cl = callees(mq["body"]) + [str((n.get("path") or {}).get("def")) for n in find(mq["body"], lambda n: n.get("k") == "Path")]
         ok = any(c.endswith("is_ascii_digit") for c in cl) and any(c.endswith("strip_prefix") for c in cl)
+        # the over-approximation must not be narrowed: the closure that tests the first byte has no further condition
+        for c in find(mq["body"], lambda n: n.get("k") == "Closure"):
+            cc = callees(c) + [str((n.get("path") or {}).get("def")) for n in find(c, lambda n: n.get("k") == "Path")]
+            if any(x.endswith("is_ascii_digit") for x in cc) and not find(c, lambda n: n.get("k") == "Closure" and n is not c):
+                extra = [x.split("::")[-1] for x in callees(c) if x.split("::")[-1] not in ("first", "is_some_and", "is_ascii_digit")] + [n["op"] for n in find(c, lambda n: n.get("k") == "Binary" and n["op"] in ("&&", "||"))]
+                if extra:
+                    ok = False
+                    t5.notes.append(f"the leading-digit test is combined with {extra}")
         t5.examined("numbers", True, {"strings_starting_like_a_number_are_quoted": ok})
         if not ok:
             t5.violate("numbers", "must_quote no longer quotes strings that start like a number")
